@@ -2,6 +2,7 @@ import Psa.AdmitProps
 import Psa.AdmitCases
 import Psa.Props.C08
 import Psa.ExpectedFacts
+import Psa.Examples
 /-! # C09 — pod controllers are never denied and their template is judged like the pod
 All eight kinds are `Obj.controller template` after ExtractPodSpec (the resource table and type switch are tied by
 fact F7 and by the correspondence, which wraps one pod in every kind). -/
@@ -65,6 +66,13 @@ theorem C09_quiet_privileged (pv) (cfg : Config) (w : World Ev) (r : Request) (l
 theorem C09_resources :
     (Generated.podSpecResources.all (Expected.podSpecResources.contains ·) &&
      Expected.podSpecResources.all (Generated.podSpecResources.contains ·)) = true := by decide
+
+/-- non-vacuity: a controller whose template is a privileged pod, in a namespace with audit=baseline and warn=restricted: allowed,
+    with a warning and an audit annotation (the premises of C09_same_findings hold for it: `shipped` runs nothing at privileged) -/
+example : exemptRC Ex.privPod.runtimeClass Ex.cfg.exRuntimeClasses = false := by decide
+example : (validateController parseVersion Ex.cfg (Ex.world Ex.restrictedLabels) (Ex.ctlCreate Ex.privPod)).1.allowed = true ∧
+    (validateController parseVersion Ex.cfg (Ex.world Ex.restrictedLabels) (Ex.ctlCreate Ex.privPod)).1.warnings ≠ [] ∧
+    (validateController parseVersion Ex.cfg (Ex.world Ex.restrictedLabels) (Ex.ctlCreate Ex.privPod)).1.annAudit.isSome = true := by decide +kernel
 
 #print axioms C09_allowed
 #print axioms C09_same_findings
